@@ -2069,7 +2069,7 @@ void eval_instruction (const char *p) {
                 if ((sp - 1)->type != T_NUMBER)
                   error ("*Buffer indexes must be integers.");
 
-                if (((sp - 1)->u.number > (int64_t)sp->u.buf->size) || ((sp - 1)->u.number < 0))
+                if (((sp - 1)->u.number >= (int64_t)sp->u.buf->size) || ((sp - 1)->u.number < 0))
                   error ("*Buffer index out of bounds.");
                 i = (int)(sp - 1)->u.number;
                 i = sp->u.buf->item[i];
@@ -2134,7 +2134,7 @@ void eval_instruction (const char *p) {
                 if ((sp - 1)->type != T_NUMBER)
                   error ("*Indexing a buffer with an illegal type.");
 
-                if (((sp - 1)->u.number > (int64_t)sp->u.buf->size) || ((sp - 1)->u.number < 0))
+                if (((sp - 1)->u.number > (int64_t)sp->u.buf->size) || ((sp - 1)->u.number <= 0))
                   error ("*Buffer index out of bounds.");
                 i = sp->u.buf->size - (int)(sp - 1)->u.number;
 
